@@ -131,7 +131,10 @@ func c05Run(w *core.W) {
 
 	// (1) the C01 products, full operand list, no domain filter
 	w.Family("operand-x-stmt-context-total")
-	for _, sc := range stmtContexts() {
+	for ci, sc := range stmtContexts() {
+		if !w.Thorough() && ci%2 == 1 {
+			continue // quick: every other statement context (C01's quick tier runs all of them against the reference)
+		}
 		scope := scTop
 		if sc.Func {
 			scope = scFunc
